@@ -361,6 +361,27 @@ func TestVerifC08(t *testing.T) {
 		}
 		vfC08One(t, p, strings.Join(lines, "\n")+"\n", class, all)
 	}
+	// generateCaseNgrams on sampled trigrams (second correspondence: the model's product of fold orbits)
+	for i := 0; i < 60; i++ {
+		var tri [ngramSize]rune
+		for k := range tri {
+			switch r.Intn(4) {
+			case 0:
+				tri[k] = fill[r.Intn(len(fill))]
+			case 1:
+				tri[k] = disagree[r.Intn(len(disagree))]
+			default:
+				tri[k] = tab[r.Intn(len(tab))]
+			}
+		}
+		var outs []string
+		for _, v := range generateCaseNgrams(runesToNGram(tri)) {
+			x := ngramToRunes(v)
+			outs = append(outs, fmt.Sprintf("(%d,%d,%d)", x[0], x[1], x[2]))
+		}
+		vfEmit(map[string]any{"kind": "variants", "coq": fmt.Sprintf("(%d,%d,%d,[%s])", tri[0], tri[1], tri[2], strings.Join(outs, ";")),
+			"sample": map[string]any{"trigram": string(tri[:]), "variants": len(outs)}})
+	}
 	done := 0
 	// 0. the witnesses of Props/C08.v replayed on the implementation, and a frequency-skewed corpus in which the
 	//    selective trigrams do not cover the disagreeing rune (substring-only matches)
